@@ -25,6 +25,10 @@ CLAIMED = {
    technique="abstract interpretation: relation lexer per character class with a consumed-equals-appended monitor; token-cursor fixpoint of the relation parser (substvars on/off) and its five entry points over all token-kind sequences",
    text="As C01 for the relationship-field reader: lexer literal arms print exactly the one character they consume, run arms append every consumed character, EOF yields None; the parser conserves tokens (including the direct pop in parse_entry), keeps order, balances nodes and makes progress in every loop for every token-kind sequence; strict = no errors with substvars disallowed; tolerant returns the unfiltered list; Entry/Relation readers return child nodes of the parsed tree; Display writes the syntax text.",
    note="Trusted as C01; the look-ahead helper peek_past_ws is replaced by a summary (first kind outside {WHITESPACE, NEWLINE} from the top) that is validated by interpreting the helper on all token vectors of length <= 3."),
+ "C03": dict(level="other", ref="4/C03",
+   technique="inclusion of the well-formed line grammar in the extracted lexer table; model checking of the product (parser token-cursor interpretation x role-annotated well-formed token DFA); accessor pipelines interpreted on all short child sequences",
+   text="Decides the acceptance, structure, accessor and rejection clauses for the whole well-formed grammar at the level of character classes and token kinds: every line form over its complete character sets is tokenised as the grammar requires; in the product with the token grammar no syntax error is reachable, names/values land under ROOT>PARAGRAPH>ENTRY with correct entry and paragraph boundaries and strict returns Ok; with one junk line every outcome is an error; key/value/get/get_all/keys/items/contains_key/paragraphs equal the list model on all child sequences of length <= 3. Value texts are opaque (the lexer partition of C01 gives their extent).",
+   note="Oracle grammars are hand-written and conservative (LF line ends, comments in column 0, empty blank lines, no '#'-led continuation lines). Accessor validation is exhaustive only up to 3 children over a 4-kind alphabet (uniform iterator chains). Trusted: rowan child order, hirai."),
 }
 NA_REASON = "check not built yet (construction in progress; see DESIGN.md section 9 build order)"
 
